@@ -332,6 +332,7 @@ def stack_suite(tier, cfgs, extra="", fams=("member",), need=()):
                 ("growing", "--bs 64 --reqs 8x8,24x1 --L 3 --B 3 --markers 2", ("unwound_across_blocks", "reused_cached_block")),
                 ("constant", "--bs 64 --reqs 40x1,8x8 --L 4 --B 4 --markers 2", ("unwound_across_blocks",)),
                 ("constant", "--bs 64 --reqs 100x1,13x16,3x1 --L 4 --B 3 --markers 1", ("alloc_bad_size",)),
+                ("constant", "--bs 64 --reqs 40x32,8x8 --L 3 --B 3 --markers 1", ("alloc_bad_size",)),
                 ("fixed", "--bs 96 --reqs 13x1,8x16,3x32 --L 5 --B 2 --markers 2", ("alloc_oom",)),
             ]
             if not q:
@@ -550,6 +551,10 @@ def check_C16(prop, tier, only):
 def check_C18(prop, tier, only):
     import grids
     jobs = check_C18_explore_jobs(tier)
+    for j in jobs:
+        if j["h"] in ("h_stack", "h_iter", "h_static"):
+            # bump allocators: memory handed out beyond the block / region is capacity that was never there
+            j["own"] = ["M-inside"]
     c = cfgs_for(tier)
     ej = grids.jobs_minblock(tier, strict_next=True) + [J("h_nextcap", cfg, "", name=f"nextcap[{cfg}]") for cfg in c]
     # "a request above the reported maxima never succeeds": the single-step request sweep on the stack-like allocators
